@@ -85,6 +85,9 @@ func newVFCluster(prefix string, ids []string, mut func(*Config)) (*vfCluster, e
 }
 
 func (c *vfCluster) start(id string, seed bool) error {
+	if c.stopHung {
+		return fmt.Errorf("an earlier Stop() did not return (its data directory is still locked)")
+	}
 	cfg := vfConfig(filepath.Join(c.root, id), id)
 	cfg.NATS.Servers = []string{c.ns.ClientURL()}
 	cfg.Port = 0
